@@ -26,7 +26,7 @@ def shard(ctx, budget_s):
     sysq = [(prog, None) for prog in range(99840 + ctx.shard, 100096, ctx.nshards)] + \
            [(rpc.PMAP, proc) for proc in range(ctx.shard, 256, ctx.nshards)]
     while time.time() < deadline or n == 0 or sysq:
-        cfg = gen.rnd_config(rng, deny=False, logger=rng.choice("nc"), level=2)
+        cfg = gen.rnd_config(rng, deny=False, logger=rng.choice("nnncl"), level=rng.choice([0, 0, 2, 3, 4, 5]))
         ctx.case(cfg)
         lab = AppLab(ctx, cfg)
         for _ in range(50):
